@@ -329,6 +329,10 @@ func genProbes(rng *rand.Rand, w *world, n int) (ps []probe) {
 			host = "www." + base
 		case 3:
 			host = "a.b." + base
+		case 4, 5, 6:
+			if base >= w.Names[len(scenarios)] { // a noise name: ask for its listed four-label host
+				host = "l4.s." + base
+			}
 		}
 		qn := dns.Fqdn(host)
 		if rng.IntN(8) == 0 {
@@ -378,7 +382,9 @@ type monitor struct {
 	keyPrefix string
 }
 
-func (mo *monitor) viol(key, what string, witness any) { mo.r.Violation(mo.keyPrefix+key, what, witness) }
+func (mo *monitor) viol(key, what string, witness any) {
+	mo.r.Violation(mo.keyPrefix+key, what, witness)
+}
 
 func (mo *monitor) pair(winner string, cands []string) (losers []string) {
 	skipped := false
@@ -402,16 +408,18 @@ func TestCheck(t *testing.T) {
 		"grammar (||d^, @@||d^, $dnstype, $dnsrewrite=ip|cname|REFUSED|NXDOMAIN, hosts-style) with ~50 forced overlap scenarios + noise, served over HTTP to a real " +
 		"filterstorage.Default; per world 6 profile configurations (one per blocking shape) + 2 anonymous filtering-group configurations with random switches; " +
 		"per configuration one probe per base name with random subdomain/case/qtype/EDNS; every probe is evaluated at Storage.ForConfig (request and response verdict) " +
-		"and behind the full dnssvc stack; per cache-enabled world and configuration up to 10 cache-alias histories (fresh host asked for two qtypes congruent mod 256, "+
-		"e.g. A/CAA/DLV, in both orders, no cache clearing, each step also compared with a cache-off twin storage); per world two delivery histories of three profiles each "+
-		"(profiles streamed by an in-process gRPC backend through the real backendpb.ProfileStorage into a real profiledb.Default: full sync, probes, custom rules change, "+
-		"delivered by an incremental / by a second full sync, same probes; the evaluator follows the rules sent last). distinct = (winner class, sorted loser classes, blocking shape, qtype class, level); non-trivial = at least one losing " +
+		"and behind the full dnssvc stack; per cache-enabled world and configuration up to 10 cache-alias histories (fresh host asked for two qtypes congruent mod 256, " +
+		"e.g. A/CAA/DLV, in both orders, no cache clearing, each step also compared with a cache-off twin storage); per world two delivery histories of three profiles each " +
+		"(profiles streamed by an in-process gRPC backend through the real backendpb.ProfileStorage into a real profiledb.Default: full sync, probes, custom rules change, " +
+		"delivered by an incremental / by a second full sync, same probes; the evaluator follows the rules sent last); per world three profiles with three named devices each " +
+		"and custom rules limited by $client in every spelling (client first / after $dnstype / quoted / several / negated), two-device histories for the same (host, qtype) in both orders. distinct = (winner class, sorted loser classes, blocking shape, qtype class, level); non-trivial = at least one losing " +
 		"candidate source matched the same probe (a precedence decision was actually made)")
 	r.Assume("the safety filters (hash-prefix and safe-search) act on A, AAAA and HTTPS questions only (documented in hashprefix.isFilterable / safesearch.FilterRequest)")
 	r.Assume("a hash-prefix filter matches a name when the name or one of its parent domains (names here have <= 4 labels) is listed; safe-search rules '|d^' match exactly d")
 	r.Assume("$dnsrewrite=<ip> answers only questions of the address family of <ip>; other qtypes get an empty NOERROR answer (documented shorthand NOERROR;A|AAAA;<ip>)")
 	r.Assume("where an allow rule of the profile's own rules and one of a shared list both match, or different records of one upstream answer get different verdicts, " +
 		"the statement leaves the deciding rule open and either outcome is accepted (bucket ambiguous_*)")
+	r.Assume("$client=A|B limits a custom rule to the devices named A or B, $client=~A to all devices but A (exact names, optional quotes); only the profile's own rules see the device name")
 	r.Assume("hash-prefix result caches are cleared before every ordinary probe (their cross-requester behaviour is property C12); they are not cleared inside a cache-alias history")
 
 	dir := os.Getenv("VERIF_SCRATCH")
@@ -485,6 +493,7 @@ func TestCheck(t *testing.T) {
 		if dl != nil {
 			mo.deliveryHistories(dl, w, cfgs, r.Rand("delivery", wi))
 		}
+		mo.clientHistories(w, cfgs, r.Rand("client", wi))
 		if es := w.errs.take(); len(es) > 0 {
 			r.Bucket("errcoll_during_probes", int64(len(es)))
 			r.Extra("errcoll_example", es[0])
@@ -507,6 +516,10 @@ func TestCheck(t *testing.T) {
 			r.Require("stack_blocked_"+ttl+"_"+s, 15)
 		}
 	}
+	r.Require("client_histories_discriminating_client-never-first", int64(nWorlds*4))
+	r.Require("client_histories_discriminating_client-always-first", int64(nWorlds*4))
+	r.Require("client_histories_discriminating_client-mixed", int64(nWorlds*4))
+	r.Require("safety_hit_on_listed_four_label_host", int64(nWorlds))
 	r.Require("delivery_sync_update_by_full", int64(nWorlds))
 	r.Require("delivery_sync_update_by_incremental", int64(nWorlds))
 	r.Require("delivery_discriminating_probes_updated-by-full-sync", int64(nWorlds*6))
@@ -747,7 +760,7 @@ func (mo *monitor) runProbe(w *world, c *cfg, st *stack.Stack, srv *agd.Server, 
 		f := w.storage.ForConfig(ctx, c.fconf)
 		var err error
 		reqRes, err = f.FilterRequest(ctx, &filter.Request{DNS: p.msg(uint16(pi + 1)), Messages: c.msgs, RemoteIP: remote.Addr(),
-			Host: p.Host, QType: p.QType, QClass: dns.ClassINET})
+			Host: p.Host, QType: p.QType, QClass: dns.ClassINET, ClientName: c.DevName})
 		if err != nil {
 			mo.viol("verdict:req:error", "FilterRequest returned an error for a legal question: "+err.Error(), witness(nil))
 			return
@@ -756,7 +769,7 @@ func (mo *monitor) runProbe(w *world, c *cfg, st *stack.Stack, srv *agd.Server, 
 			// reference: the same question put to the cache-off twin
 			w.refHP.clearAll()
 			refRes, rerr := w.ref.ForConfig(ctx, c.fconf).FilterRequest(ctx, &filter.Request{DNS: p.msg(uint16(pi + 1)), Messages: c.msgs,
-				RemoteIP: remote.Addr(), Host: p.Host, QType: p.QType, QClass: dns.ClassINET})
+				RemoteIP: remote.Addr(), Host: p.Host, QType: p.QType, QClass: dns.ClassINET, ClientName: c.DevName})
 			r.Bucket("alias_twin_comparisons", 1)
 			if rerr != nil || vkit.JSON(observedOf(refRes)) != vkit.JSON(observedOf(reqRes)) {
 				mo.viol("cache-alias:req-verdict-differs-from-cache-off-twin:"+mo.alias.Order,
@@ -784,6 +797,9 @@ func (mo *monitor) runProbe(w *world, c *cfg, st *stack.Stack, srv *agd.Server, 
 			return
 		}
 		reqWinner = classOf(reqRes)
+		if strings.HasPrefix(p.Host, "l4.s.") && (reqWinner == "danger" || reqWinner == "adult" || reqWinner == "newreg") {
+			r.Bucket("safety_hit_on_listed_four_label_host", 1)
+		}
 		losers := []string{}
 		if reqWinner != "none" {
 			losers = mo.pair(reqWinner, reqCands)
@@ -796,7 +812,7 @@ func (mo *monitor) runProbe(w *world, c *cfg, st *stack.Stack, srv *agd.Server, 
 		resp := &dns.Msg{}
 		resp.SetReply(p.msg(uint16(pi + 1)))
 		resp.Answer = upstreamAnswer(p.QName, p.QType)
-		respRes, err := f.FilterResponse(ctx, &filter.Response{DNS: resp, RemoteIP: remote.Addr()})
+		respRes, err := f.FilterResponse(ctx, &filter.Response{DNS: resp, RemoteIP: remote.Addr(), ClientName: c.DevName})
 		if err != nil {
 			mo.viol("verdict:resp:error", "FilterResponse returned an error: "+err.Error(), witness(nil))
 			return
